@@ -102,10 +102,74 @@ def run_decomp(case):
     return out
 
 
+def _ratio(x):
+    """exact value of a float as [numerator, denominator]"""
+    a, b = float(x).as_integer_ratio()
+    return [int(a), int(b)]
+
+
+def run_book(case):
+    """svd_theta / eigh_rho on (a rotation of) diag(xs)/2^k: the renormalisation bookkeeping.
+    The mask chosen by truncate is recorded by wrapping truncation.truncate (the wrapper only observes)."""
+    import tenpy.linalg.np_conserved as npc
+    from tenpy.linalg import truncation
+    from fractions import Fraction
+    rng = np.random.default_rng(case['seed'])
+    xs = np.array(case['xs'], dtype=np.float64) / (1 << case['k'])
+    n = len(xs)
+    d = np.diag(xs)
+    if case['rotate']:
+        q1, _ = np.linalg.qr(rng.normal(size=(n, n)))
+        q2, _ = np.linalg.qr(rng.normal(size=(n, n)))
+        d = q1 @ d @ (q1.T if case['eigh'] else q2)
+        if case['eigh']:
+            d = (d + d.T) / 2
+    a = npc.Array.from_ndarray_trivial(d, labels=['a', 'b'])
+    opts = {k: v for k, v in case['opts'].items() if v != 'absent'}
+    rec = {}
+    orig = truncation.truncate
+
+    def spy(S, options):
+        out = orig(S, options)
+        rec['mask'] = [bool(b) for b in out[0]]
+        return out
+    truncation.truncate = spy
+    try:
+        if case['eigh']:
+            W0, _ = npc.eigh(a)                       # the call eigh_rho makes first
+            W, V, err = truncation.eigh_rho(a, dict(opts))
+            return {'order': [int(round(w * (1 << case['k']))) for w in W0], 'mask': rec['mask'],
+                    'W': [_ratio(w * (1 << case['k'])) for w in W], 'eps': _ratio(err.eps),
+                    'exact_in': bool(np.allclose(np.sort(W0), np.sort(xs), rtol=0, atol=1e-12))}
+        _, S0, _ = npc.svd(a, full_matrices=False, compute_uv=True, inner_labels=['vR', 'vL'])
+        U, S, VH, err, renorm = truncation.svd_theta(a, dict(opts))
+        return {'order': [int(round(s * (1 << case['k']))) for s in S0], 'mask': rec['mask'],
+                'S': [_ratio(s) for s in S], 'renorm': _ratio(renorm * (1 << case['k'])), 'eps': _ratio(err.eps),
+                'exact_in': bool(np.allclose(np.sort(S0), np.sort(xs), rtol=0, atol=1e-12))}
+    except Exception as e:
+        return {'error': type(e).__name__ + ': ' + str(e)[:100]}
+    finally:
+        truncation.truncate = orig
+
+
+def run_err_exact(case):
+    """TruncationError arithmetic, results as exact ratios (inputs are chosen so that floats are exact)."""
+    from tenpy.linalg.truncation import TruncationError
+    tot = TruncationError()
+    for (a, b) in case['eps_list']:
+        e = a / b
+        tot = tot + TruncationError(e, 1. - 2. * e)
+    no = None if case['norm_old'] is None else case['norm_old'][0] / case['norm_old'][1]
+    fs = TruncationError.from_S(np.array([a / b for (a, b) in case['S_disc']], dtype=np.float64), no)
+    fn = TruncationError.from_norm(case['norm_new'][0] / case['norm_new'][1], no if no is not None else 1.)
+    return {'eps_sum': _ratio(tot.eps), 'from_S_eps': _ratio(fs.eps), 'from_norm_eps': _ratio(fn.eps)}
+
+
 def main():
     payload = json.load(open(sys.argv[1]))
     kind = payload['kind']
-    f = {'truncate': run_truncate, 'err': run_err, 'decomp': run_decomp}[kind]
+    f = {'truncate': run_truncate, 'err': run_err, 'decomp': run_decomp, 'book': run_book,
+         'err_exact': run_err_exact}[kind]
     res = []
     for c in payload['cases']:
         try:
